@@ -174,8 +174,13 @@ JudgeC11Exists(g) ==
               ELSE IF Hard(e.err.cls) THEN (IF g.lax /\ x = "T" THEN "T" ELSE "H")   \* lax may have found an item first
               ELSE IF g.lax /\ g.runs[3].q.items # <<>> THEN "T"     \* lax: an item found before the failure (silent run)
               ELSE "U"
+      ech == g.runs[1].path.chain
+      unaryLast == ech[Len(ech)].k = "un" /\ ech[Len(ech)].op \in {"plus", "minus"}
   IN IF \E i \in 1..Len(g.runs) : Broken(g.runs[i]) THEN {}
-     ELSE IF x = want THEN {} ELSE {"C11.exists"}
+     ELSE IF x = want THEN {}
+     ELSE IF g.lax /\ x = "T" /\ unaryLast /\ e.err.cls = "verbose"
+          THEN {"known.unary-nonnum-exists.C11.exists"}     \* the named deviation of PathSem
+     ELSE {"C11.exists"}
 
 (* When the order of object members is in play the executions of a group   *)
 (* may have met members in different orders (so that a different failure is *)
